@@ -852,6 +852,12 @@ func generate(seed uint64, idx int) caseDesc {
 		}
 		g.lists = append(g.lists, l)
 	}
+	if r.Chance(1, 8) { // a run over an empty changelog (ReadChanges fails with "not found")
+		g.request(0)
+		g.add("rd", r.Range(0, 1))
+		g.add("f", 0)
+		g.request(0)
+	}
 	g.write(0, r.Range(1, 3), -1)
 	ttlSlots := func(ttl, delta int) int { return ttl/20 + delta }
 	t := r.Intn(20)
